@@ -403,6 +403,9 @@ def gen_shaped_query(rng, cfg):
         lambda: ["dismax", [conj(), t()], 0.0],
         lambda: ["dismax", [disj(), conj()], 0.0],
         lambda: ["and", [disj(), disj()]],
+        lambda: ["and", [["or", [t(), t()]], t()]],
+        lambda: ["andmaybe", t(), ["or", [t(), t()]]],
+        lambda: ["or", [["or", [t(), t()]], conj()]],
         lambda: ["and", [t(), t(), t()]],
         lambda: ["or", [conj(), conj()]],
         lambda: ["andnot", ["andmaybe", t(), t()], t()],
